@@ -50,6 +50,10 @@ const (
 	FormStruct     = 1 // func(struct{argmapper.Struct; ...})
 	FormPtrStruct  = 2 // func(*struct{argmapper.Struct; ...})
 	FormBuilt      = 3 // argmapper.BuildFunc over NewValueSet (both sides)
+	// FormPtrPtrStruct (input side only): func(**struct{argmapper.Struct; ...}).
+	// The library documents that it rejects it at construction; worlds use it
+	// to see that it does (an accepted one must still not panic when called).
+	FormPtrPtrStruct = 4
 )
 
 // Party is a target or converter.
@@ -71,18 +75,19 @@ type Party struct {
 
 // Arg kinds.
 const (
-	ArgNamed     = "named"     // Named / NamedSubtype
-	ArgTyped     = "typed"     // Typed / TypedSubtype
-	ArgConv      = "conv"      // Converter(fn) with the raw Go function
-	ArgConvFunc  = "convfunc"  // ConverterFunc(*Func)
-	ArgGen       = "gen"       // ConverterGen
-	ArgFilterIn  = "filterin"  // FilterInput
-	ArgFilterOut = "filterout" // FilterOutput
-	ArgNilOpt    = "nilopt"    // a nil Arg
-	ArgNilValue  = "nilvalue"  // Named/Typed with a nil interface value
-	ArgNonFunc   = "nonfunc"   // Converter(42)
-	ArgNilFunc   = "nilfunc"   // ConverterFunc(nil)
-	ArgNilConv   = "nilconv"   // Converter(nil)
+	ArgNamed      = "named"      // Named / NamedSubtype
+	ArgTyped      = "typed"      // Typed / TypedSubtype
+	ArgConv       = "conv"       // Converter(fn) with the raw Go function
+	ArgConvFunc   = "convfunc"   // ConverterFunc(*Func)
+	ArgGen        = "gen"        // ConverterGen
+	ArgFilterIn   = "filterin"   // FilterInput
+	ArgFilterOut  = "filterout"  // FilterOutput
+	ArgNilOpt     = "nilopt"     // a nil Arg
+	ArgNilValue   = "nilvalue"   // Named/Typed with a nil interface value
+	ArgNonFunc    = "nonfunc"    // Converter(42)
+	ArgNilFunc    = "nilfunc"    // ConverterFunc(nil)
+	ArgNilConv    = "nilconv"    // Converter(nil)
+	ArgTypedMulti = "typedmulti" // Typed(v1, nil, v2, ...): several values (and nils) in one option
 )
 
 // ArgSpec is one option value. Option values are created once per world and
@@ -97,6 +102,12 @@ type ArgSpec struct {
 	// 2 FilterAnd(FilterOr(...), always-true).
 	Filter      []int `json:"filter,omitempty"`
 	FilterStyle int   `json:"filter_style,omitempty"`
+	// Multi (typedmulti): indices of typed ArgSpecs (no subtype) whose values this
+	// option bundles, in order; NilBefore[i] inserts a nil before component i,
+	// NilLast appends one.
+	Multi     []int  `json:"multi,omitempty"`
+	NilBefore []bool `json:"nil_before,omitempty"`
+	NilLast   bool   `json:"nil_last,omitempty"`
 }
 
 // Gen is a converter generator: for every value whose type is Trigger it
@@ -131,6 +142,11 @@ type Op struct {
 	// ZeroInputs (callredef): hand the zero value of each declared input type
 	// to the redefined function instead of a fresh token.
 	ZeroInputs bool `json:"zero_inputs,omitempty"`
+	// ShareArgsWith (1-based op index, 0 = none): this operation's option list
+	// starts with that operation's list and is built by appending to the same
+	// slice (the two lists share a backing array, as `base...` and
+	// `append(base, x)...` do).
+	ShareArgsWith int `json:"share_args_with,omitempty"`
 }
 
 // Fault is one entry of the fault plan.
@@ -162,6 +178,8 @@ func (w World) Clone() World {
 	for _, a := range w.Args {
 		b := a
 		b.Filter = append([]int(nil), a.Filter...)
+		b.Multi = append([]int(nil), a.Multi...)
+		b.NilBefore = append([]bool(nil), a.NilBefore...)
 		if a.Gen != nil {
 			g := *a.Gen
 			b.Gen = &g
